@@ -130,6 +130,14 @@ func importSnapshotToDatastoreWithTestingPowerTableFrequency(ctx context.Context
 	}
 	var latestCert *certs.FinalityCertificate
 	ptm := certs.PowerTableArrayToMap(header.InitialPowerTable)
+	// CID of the power table obtained so far. It is recomputed whenever a
+	// certificate carries a non-empty delta and must match what every certificate
+	// commits to, same as Store.Put; checking checkpoints and the last
+	// certificate only lets tampered deltas that cancel out go unnoticed.
+	ptCid, err := certs.MakePowerTableCID(certs.PowerTableMapToArray(ptm))
+	if err != nil {
+		return fmt.Errorf("failed to make initial power table CID: %w", err)
+	}
 	for i := header.FirstInstance; ; i += 1 {
 		certBytes, err := readSnapshotBlockBytes(snapshot)
 		if err == io.EOF {
@@ -158,6 +166,14 @@ func importSnapshotToDatastoreWithTestingPowerTableFrequency(ctx context.Context
 
 		if ptm, err = certs.ApplyPowerTableDiffsToMap(ptm, cert.PowerTableDelta); err != nil {
 			return err
+		}
+		if len(cert.PowerTableDelta) > 0 {
+			if ptCid, err = certs.MakePowerTableCID(certs.PowerTableMapToArray(ptm)); err != nil {
+				return err
+			}
+		}
+		if ptCid != cert.SupplementalData.PowerTable {
+			return fmt.Errorf("power table after instance %d differs from expected power table: %s != %s", cert.GPBFTInstance, ptCid, cert.SupplementalData.PowerTable)
 		}
 
 		if (cert.GPBFTInstance+1)%cs.powerTableFrequency == 0 {
